@@ -125,7 +125,9 @@ PROPS = {
             "make_salt (iterator chain): the salt prefix is an assumed contract in the Verus unit; it is checked by the bounded Kani family K-PRF-SALT (inputs of 0, 1, 5 bytes) on the real source file",
             "get_ctap_extension / make_ctap_extension (iterator and collect chains): per-credential inputs without an allow list, "
             "empty / undecodable / unlisted credential keys are not decided",
-            "select_salts (HashMap::into_iter().find with a tuple pattern): per-credential precedence on the authenticator side",
+            "select_salts is proved (an evalByCredential entry for the credential id before the top-level eval) over a trusted model of "
+            "hash_map::IntoIter::find (rule R19: some entry for which the predicate holds, None only if it holds for none) and a byte-slice "
+            "equality wrapper",
         ],
     },
     "C10": {
